@@ -193,6 +193,11 @@ def build(history: list[tuple[str, ...]], spacing: float, hset: int, fails: int,
         handlers = [dict(id='c1', on='create', script=['ok']), dict(id='c2', on='create', script=f + ['ok']),
                     dict(id='u1', on='update', script=f + ['ok']), dict(id='u2', on='update', script=['ok']),
                     dict(id='d1', on='delete', script=['ok'])]
+    if hset == 5:   # one sub-handler per item of spec.items (as in kopf's docs); the second item's sub-handler needs retries
+        handlers = [dict(id='c1', on='create', script=['ok']), dict(id='u1', on='update', script=['ok']), dict(id='d1', on='delete', script=['ok'])]
+        per_item = [dict(id='i1', when_item=1, script=['ok']), dict(id='i2', when_item=2, script=f + ['ok']), dict(id='i3', when_item=3, script=['ok'])]
+        kw['subs'] = {'c1': per_item, 'u1': per_item}
+        user[0] = (1.0, 'create', 'a', {'x': 1, 'items': [1, 2]})
     return C03Scenario(handlers=handlers, user=user, horizon=horizon, history=[list(a) for a in history],
                        spacing=spacing, hset=hset, fails=fails,
                        settings={'persistence__consistency_timeout': 5.0}, **kw)
@@ -209,6 +214,12 @@ def scenarios(tier: str) -> tuple[list[C03Scenario], list[C03Scenario], list[C03
                 hist.append(build(h, spacing, 3, 1, delays=False, early_user=False, time_dev=False))
                 if len(h) <= 2 or tier != 'quick':
                     hist.append(build(h, spacing, 4, 0, delays=False, early_user=False, time_dev=False))
+    # sub-handlers that follow a list in the spec, and the list shrinks / grows while one of them is between its retries
+    for h in ([('truncate', 'a')], [('truncate', 'a'), ('append', 'a')], [('append', 'a')], [('append', 'a'), ('truncate', 'a')],
+              [('truncate', 'a'), ('restart',)], [('truncate', 'a'), ('truncate', 'a')], [('truncate', 'a'), ('spec', 'a', 2)]):
+        for spacing in (20.0, 2.0, 1.0, 0.0):
+            for fails in (1, 2):
+                hist.append(build(h, spacing, 5, fails, delays=False, early_user=False, time_dev=False))
     crash = [build(h, 20.0, hset, 1, kills=True, delays=False, early_user=False, time_dev=False)
              for h in histories(2 if tier == 'quick' else 3) for hset in (1, 2, 3)]
     timing = [build(h, 4.0, hset, 1, grid=2.0) for h in histories(1 if tier == 'quick' else 2) for hset in (1, 2, 3)]
